@@ -18,7 +18,7 @@ def setup_state(ctx, method, mk_args):
     st = State(T, {}, {}, [])
     sref, wf, info = mk_state(st, ctx.w)
     args, wfa, reals = mk_args(ctx)
-    ctx.assume(wf, wfa)
+    ctx.assume(wf, wfa, wf_tool(ctx.w, st.heap, sref))
     ctx.input_reals = info["reals"] + reals
     x = ctx.executor()
     h0 = st.snap()
@@ -26,6 +26,8 @@ def setup_state(ctx, method, mk_args):
     ctx.replayer = harness.state_method_replayer(ctx, ctx.w, method, sref, h0, args, exits)
     covers(ctx, exits)
     exits_partition(ctx, exits)
+    for e in exits:
+        ctx.check(f"wf tool flags consistent @{e.kind}@{e.where}", wf_tool(ctx.w, e.heap, sref), e, ["C07", "C02"], "inv")
     return sref, h0, args, exits, info
 
 
@@ -53,7 +55,7 @@ def _tool_mode_unit(ctx, method, enum_cls, mode_field, default_off):
     mode = args[0]; level = args[1] if len(args) > 1 else ZERO
     off = mode.idx == member(ctx, enum_cls, "OFF")
     active0 = fld(h0, sref, "_is_tool_active").t
-    power_ok = AND(bound_ok(h0, info, "tool-power", level), NOT(n_lt(level, ZERO)))
+    power_ok = AND(bound_ok(h0, info, "tool-power", level), NOT(n_lt(level, ZERO)), level.finite)
     if default_off:
         # C06: switching the tool off is never rejected, whatever the bounds table says
         never_raises(ctx, exits, props=["C06", "C02"])
@@ -67,7 +69,7 @@ def _tool_mode_unit(ctx, method, enum_cls, mode_field, default_off):
     post(ctx, exits, "mode-recorded", lambda e: fld(e.heap, sref, mode_field).idx == mode.idx, ["C07"])
     post(ctx, exits, "power-recorded", lambda e: IMP(NOT(off), v_same(fld(e.heap, sref, "_current_tool_power"), level)), ["C07", "C03"])
     post(ctx, exits, "power-within-bounds", lambda e: IMP(NOT(off), bound_ok(h0, info, "tool-power", fld(e.heap, sref, "_current_tool_power"))), ["C03"])
-    frame(ctx, exits, h0, sref, {"_is_tool_active", mode_field, "_current_tool_power"})
+    frame(ctx, exits, h0, sref, {"_is_tool_active", "_current_spin_mode", "_current_power_mode", "_current_tool_power"})
     for e in exits:
         if e.kind == "return": ctx.canary("canary:return-implies-was-inactive", NOT(active0), e)
 
@@ -156,7 +158,7 @@ def _num_setter(ctx, method, field, key, nonneg):
         v, wf = sym_num("v"); return [v], wf, [v.val]
     sref, h0, (v,), exits, info = setup_state(ctx, method, mk)
     ok = bound_ok(h0, info, key, v)
-    if nonneg: ok = AND(ok, NOT(n_lt(v, ZERO)))
+    if nonneg: ok = AND(ok, NOT(n_lt(v, ZERO)), v.finite)      # feed rate / tool power: negative or non-finite values are rejected
     raises_iff(ctx, exits, {"ValueError": NOT(ok)}, props=["C03"])
     on_raise_unchanged(ctx, exits, h0, {"state": sref}, props=["C05"])
     post(ctx, exits, "value-recorded", lambda e: v_same(fld(e.heap, sref, field), v), ["C07"])
